@@ -29,7 +29,7 @@ m = dict(
     engines=[dict(name='contracts', path='engine/driver.py', serves_properties=sorted(P.PROPS),
                   kind_free_text='contract-based deductive verification of the real code: Verus (requires/ensures/invariants spliced onto functions extracted verbatim from /repo on every run) + Kani/CBMC (function contracts and complete loop-free harnesses on an annotated scratch copy of the whole crate; native replay of counterexamples)')],
     checks=checks,
-    notes='Genuine defect repaired in /repo (unguarded fix commit): ' + '; '.join(P.FIX_COMMITS) + '. Every check rebuilds from /repo working tree. exit 0 ok / 1 VIOLATION / 2 undecided (lost anchor, tool limit) - never an alarm. See DESIGN.md.',
+    notes='Genuine defect repaired in /repo (unguarded fix commit): ' + '; '.join(P.FIX_COMMITS) + '. Genuine defects recorded, not repaired (known_findings.json, printed as KNOWN-FINDING lines, exit 0): C07 stress alpha turns secondary into primary; C02 20-digit number overflows usize in the parser; C02 insertion rule with a before-exception panics (SegPos::reversed on an insertion point outside the word). Every check rebuilds from /repo working tree. exit 0 ok / 1 VIOLATION / 2 undecided (lost anchor, tool limit) - never an alarm. See DESIGN.md.',
     not_applicable=na,
 )
 json.dump(m, open('/verif/MANIFEST.json', 'w'), indent=1)
